@@ -117,18 +117,21 @@ def _is_code_line(text):
 
 
 def double_covered(c, ms, f0):
-    """Finding-keyed workload exclusion (known/C24.txt, key case:witness-double-cover:j1-vs-thread:zerodiv):
-    a finding hidden in the worker by an inline or exact-file suppression never reaches the parent,
-    so under -jN a global / wildcard-file suppression matching the same finding is reported as
-    unmatched (not under -j1). Cases containing that construct are replayed from the witness only
-    and are not handed to the executor comparison."""
+    """Finding-keyed workload exclusion (known/C24.txt, keys case:witness-double-cover:* and
+    case:witness-hidden-in-worker:*): a finding hidden in the worker by an inline or exact-file
+    suppression never reaches the parent, so under -jN a global / wildcard-file suppression that
+    matches the same finding is reported as unmatched (not under -j1), and one that merely shares
+    its file and line is never marked checked (reported under -j1 only). Cases containing that
+    construct are replayed from the witness only and are not handed to the executor comparison."""
+    def local(t):
+        return t.origin == 'inline' or (t.file and not sm.has_glob(t.file))
     for s in ms:
-        if s.origin == 'inline' or (s.file and not sm.has_glob(s.file)):
+        if local(s):
             continue
         for f in f0:
-            if sm.matches(s, f) is not False and any(
-                    (t.origin == 'inline' or (t.file and not sm.has_glob(t.file))) and sm.matches(t, f) is not False
-                    for t in ms if t is not s):
+            loc = sm.Suppr(s.origin, s.kind, '*', file=s.file, line=s.line)
+            if sm.matches(loc, f) is not False and any(local(t) and sm.matches(t, f) is not False
+                                                       for t in ms if t is not s):
                 return True
     return False
 
@@ -242,7 +245,7 @@ def _case(ctx, idx):
     # (3) executors
     nex = 0
     if idx % 2 == 0 and len(c.sources) >= 2 and double_covered(c, ms, f0):
-        ctx.count('generator-exclusions', 'double-cover not run under -jN (known finding case:witness-double-cover)')
+        ctx.count('generator-exclusions', 'finding hidden in worker + global suppression: not run under -jN (known findings case:witness-double-cover, case:witness-hidden-in-worker)')
     elif idx % 2 == 0 and len(c.sources) >= 2:
         def canon(a):
             return [f for f in a.findings if f.id == UNM
@@ -294,6 +297,16 @@ def _replay_known(ctx):
         oa, ob = findings.diff([f for f in ref.findings if f.id == UNM], [f for f in a.findings if f.id == UNM])
         if oa or ob:
             ctx.violation('case:witness-double-cover:j1-vs-%s:zerodiv' % ex,
+                          'unmatchedSuppression reports differ between -j1 and %s executor\n%s'
+                          % (ex, cases.fmt_diff(oa, ob, '-j1', ex)), files={'project': '@' + src}, cmd=a.res.cmdline())
+    opts = ['-q', '--enable=information', '--inline-suppr', '--suppress=memleak:*.c:4']
+    ref = cases.analyse(src, opts + ['-j1', 'a.c', 'b.c'])
+    for ex in ('thread', 'process'):
+        a = cases.analyse(src, opts + ['-j2', '--executor=' + ex, 'a.c', 'b.c'])
+        ctx.ev()
+        oa, ob = findings.diff([f for f in ref.findings if f.id == UNM], [f for f in a.findings if f.id == UNM])
+        if oa or ob:
+            ctx.violation('case:witness-hidden-in-worker:j1-vs-%s:memleak' % ex,
                           'unmatchedSuppression reports differ between -j1 and %s executor\n%s'
                           % (ex, cases.fmt_diff(oa, ob, '-j1', ex)), files={'project': '@' + src}, cmd=a.res.cmdline())
 
